@@ -488,6 +488,16 @@ Definition bs_read (b : bstream) (count : Z) : option (Z * bytes * bstream) :=
                     | Some (r, o, s') => Some (r, o, BS_chunked s')
                     end
   end.
+Definition bs_read_f (fuel : nat) (b : bstream) (count : Z) : option (Z * bytes * bstream) :=
+  match b with
+  | BS_len s => let '(r, o, s') := brs_read s count in Some (r, o, BS_len s')
+  | BS_chunked s => match crs_read_f fuel s count with
+                    | None => None
+                    | Some (r, o, s') => Some (r, o, BS_chunked s')
+                    end
+  end.
+Definition bs_fuel (b : bstream) : nat :=
+  match b with BS_len _ => O | BS_chunked s => crs_fuel s end.
 Definition bs_rest (b : bstream) : Z :=
   match b with BS_len s => total_len (b_ps s) | BS_chunked s => total_len (c_ps s) end.
 
